@@ -175,6 +175,6 @@ def run(tier, seed):
 MANIFEST = {
     "engine": "G",
     "technique": "stateless model checking of the real mutable Publish: all delivery orders and all placements of injected faults (error / error-after-effect / disconnect) within bounds; success judged against parsed share files and the log of acknowledged writes",
-    "text": "Creation and overwrite of SDMF/MDMF files on 1..N+1 real storage servers are executed under every schedule and fault placement within the bounds; a reported success must be backed by >= k acknowledged shares of the new version on disk and by a fresh client reading the new contents.",
+    "text": "Creation and overwrite of SDMF/MDMF files on 1..N+1 real storage servers are executed under every schedule and fault placement within the bounds; a reported success must be backed by >= k acknowledged shares of the new version on disk and by a fresh client reading the new contents. A success must not follow an acknowledged write over a pre-existing share on a server whose survey never answered.",
     "note": "Bounds (d, f) in evidence; small files; independent share parser in vt/lib_mut.py.",
 }
